@@ -12,6 +12,7 @@ import (
 
 	"rscheck/cfgq"
 	"rscheck/core"
+	"rscheck/lin"
 	"rscheck/pat"
 	"rscheck/rules/c07"
 )
@@ -36,11 +37,11 @@ func (x *rx) bigkey() {
 	}
 	key, value, pttl, db, pre := ps[1], ps[2], ps[3], ps[4], ps[5]
 	is := func(o types.Object) func(ast.Expr) bool {
-		return func(e ast.Expr) bool { return core.ObjOf(info, c07.Strip(info, e)) == o }
+		return func(e ast.Expr) bool { return c07.Obj(info, c07.Strip(info, e)) == o }
 	}
 	isPre := func(e ast.Expr) bool {
 		s, ok := ast.Unparen(e).(*ast.StarExpr)
-		return ok && core.ObjOf(info, s.X) == pre
+		return ok && c07.Obj(info, s.X) == pre
 	}
 	inner := x.c.LookupFunc(pkgCommon, "", "restoreBigRdbEntry")
 	if inner == nil {
@@ -97,7 +98,7 @@ func (x *rx) bigkey() {
 	}{{"select", y.cmdNode("Do", "SELECT")}, {"restoreBigRdbEntry", y.callNode(inner.Obj)}, {"pexpire", isExpire}} {
 		for _, p := range g.Points(site.pred) {
 			for _, call := range cfgq.ExecCalls(p.Node()) {
-				if _, cm, _ := cmd(info, call); cm == "SELECT" || cm == "PEXPIRE" || core.CalleeFunc(info, call) == inner.Obj {
+				if _, cm, _ := cmd(info, call); cm == "SELECT" || cm == "PEXPIRE" || c07.CalleeF(info, call) == inner.Obj {
 					c07.ErrCheck(x.c, g, info, fn.Decl.Body, call, c07.ErrSpec{Rule: "R6.error", Key: "RestoreBigkey/" + site.name, Consequence: "a failed step of the big-key restore goes unnoticed and the key is left partial / in the wrong db / without TTL"})
 				}
 			}
@@ -136,7 +137,7 @@ func (x *rx) doFetch() {
 	ended := func(b *cfg.Block, s int) bool {
 		return c07.EdgeFact(g, b, s, func(f cfgq.Fact) bool {
 			call, ok := ast.Unparen(f.Expr).(*ast.CallExpr)
-			return ok && f.Val && core.CalleeFunc(x.info, call) == endF
+			return ok && f.Val && c07.CalleeF(x.info, call) == endF
 		})
 	}
 	leak := false
@@ -179,7 +180,7 @@ func (x *rx) doFetch() {
 	if ps := fn.Decl.Type.Params.List; len(ps) == 1 && len(ps[0].Names) == 1 {
 		dbParam = x.info.Defs[ps[0].Names[0]]
 	}
-	isDB := func(e ast.Expr) bool { return dbParam != nil && core.ObjOf(x.info, c07.Strip(x.info, e)) == dbParam }
+	isDB := func(e ast.Expr) bool { return dbParam != nil && c07.Obj(x.info, c07.Strip(x.info, e)) == dbParam }
 	x.selectRules("doFetch", g, g.Entry(), nil, x.fieldObj("previousDb"), prev, isDB, x.cmdNode("Do", "SELECT"), scans, nil)
 
 	x.pipelines(fn, g, scans, isScan, isDB)
@@ -209,7 +210,7 @@ func (x *rx) scanners() {
 	sk, en := c.Func(pkgScanner, "NormalScanner", "ScanKey"), c.Func(pkgScanner, "NormalScanner", "EndNode")
 	if sk != nil && en != nil {
 		info := sk.Pkg.TypesInfo
-		isCursor := func(e ast.Expr) bool { return core.IsFieldNamed(info, c07.Strip(info, e), "NormalScanner", "cursor") }
+		isCursor := func(e ast.Expr) bool { return core.IsFieldNamed(info, c07.Through(info, e), "NormalScanner", "cursor") }
 		n := 0
 		for _, call := range core.Calls(sk.Decl.Body, info, func(*ast.CallExpr, types.Object) bool { return true }) {
 			if _, cm, _ := cmd(info, call); cm == "SCAN" {
@@ -217,7 +218,7 @@ func (x *rx) scanners() {
 				c.Check("R5.scanner", "NormalScanner/scan-from-cursor", call.Pos(), len(call.Args) >= 2 && isCursor(call.Args[1]),
 					"SCAN must be issued with the cursor returned by the previous reply; found `"+c.Src(call)+"`: the scan restarts or jumps, keys are missed or the loop never ends")
 			}
-			if f := core.CalleeFunc(info, call); f != nil && f.Name() == "Scan" && strings.HasSuffix(f.Pkg().Path(), "redigo/redis") {
+			if f := c07.CalleeF(info, call); f != nil && f.Name() == "Scan" && strings.HasSuffix(f.Pkg().Path(), "redigo/redis") {
 				n++
 				okCur, okKeys := false, false
 				if len(call.Args) == 3 {
@@ -225,9 +226,9 @@ func (x *rx) scanners() {
 						okCur = true
 					}
 					if u, ok := ast.Unparen(call.Args[2]).(*ast.UnaryExpr); ok && u.Op == token.AND {
-						kobj := core.ObjOf(info, u.X)
+						kobj := c07.Obj(info, u.X)
 						core.Inspect(sk.Decl.Body, func(m ast.Node) bool {
-							if r, ok := m.(*ast.ReturnStmt); ok && len(r.Results) == 2 && core.IsNil(info, r.Results[1]) && core.ObjOf(info, r.Results[0]) == kobj {
+							if r, ok := m.(*ast.ReturnStmt); ok && len(r.Results) == 2 && core.IsNil(info, r.Results[1]) && c07.Obj(info, r.Results[0]) == kobj {
 								okKeys = true
 							}
 							return true
@@ -303,13 +304,13 @@ func (x *rx) dbs() {
 		x.c.Undecidedf("R5.dbs", "fetcher", x.fn["fetcher"].Decl.Pos(), "no range over dbList / FilterDB not resolved")
 		return
 	}
-	dbv := core.ObjOf(x.info, rs.Value)
+	dbv := c07.Obj(x.info, rs.Value)
 	head, body := c07.RangeBlocks(g, rs)
 	isFetch := x.callNode(x.fn["doFetch"].Obj)
 	filtered := func(b *cfg.Block, s int) bool {
 		return c07.EdgeFact(g, b, s, func(f cfgq.Fact) bool {
 			call, ok := ast.Unparen(f.Expr).(*ast.CallExpr)
-			return ok && f.Val && core.CalleeFunc(x.info, call) == filterDB.Obj && len(call.Args) == 1 && core.ObjOf(x.info, c07.Strip(x.info, call.Args[0])) == dbv
+			return ok && f.Val && c07.CalleeF(x.info, call) == filterDB.Obj && len(call.Args) == 1 && c07.Obj(x.info, c07.Strip(x.info, call.Args[0])) == dbv
 		})
 	}
 	x.c.Check("R5.dbs", "fetcher/every-db", rs.Pos(), !c07.ReachBlock2(g, cfgq.Point{B: body}, isFetch, filtered, head),
@@ -317,8 +318,8 @@ func (x *rx) dbs() {
 	okArg := false
 	for _, p := range g.Points(isFetch) {
 		for _, call := range cfgq.ExecCalls(p.Node()) {
-			if core.CalleeFunc(x.info, call) == x.fn["doFetch"].Obj {
-				okArg = len(call.Args) == 1 && core.ObjOf(x.info, c07.Strip(x.info, call.Args[0])) == dbv
+			if c07.CalleeF(x.info, call) == x.fn["doFetch"].Obj {
+				okArg = len(call.Args) == 1 && c07.Obj(x.info, c07.Strip(x.info, call.Args[0])) == dbv
 			}
 		}
 	}
@@ -339,29 +340,99 @@ func (x *rx) dbs() {
 		x.c.Undecidedf("R5.dbs", "getSourceDbList/lists-every-db", fn.Decl.Pos(), "no `for db, number := range keyspace` loop")
 		return
 	}
-	k, v := core.ObjOf(x.info, lr.Key), core.ObjOf(x.info, lr.Value)
+	k, v := c07.Obj(x.info, lr.Key), c07.Obj(x.info, lr.Value)
 	lh, lb := c07.RangeBlocks(gl, lr)
 	isApp := func(n ast.Node) bool {
 		b := pat.Stmt("_l = append(_l, _d)").Match(x.info, n, nil)
-		return b != nil && core.ObjOf(x.info, b["_d"].(ast.Expr)) == k
+		return b != nil && c07.Obj(x.info, b["_d"].(ast.Expr)) == k
 	}
-	skipOK := func(b *cfg.Block, s int) bool { // false edge of a condition all of whose conjuncts are `number > 0` / `!FilterDB(db)`
-		cond := cfgq.CondOf(b)
-		if cond == nil || s != 1 {
-			return false
+	// An edge may skip the append only when it implies "number <= 0 or FilterDB(db)": the condition is evaluated
+	// for the four truth assignments of its two atoms (any boolean combination, either polarity, guard clause or
+	// nested form).
+	atom := func(e ast.Expr) (idx int, neg bool, ok bool) { // 0: number > 0, 1: FilterDB(db)
+		e = ast.Unparen(e)
+		if call, isC := e.(*ast.CallExpr); isC && c07.CalleeF(x.info, call) == filterDB.Obj && len(call.Args) == 1 && c07.Obj(x.info, c07.Strip(x.info, call.Args[0])) == k {
+			return 1, false, true
 		}
-		for _, f := range cfgq.Facts(cond, true) {
-			okAtom := false
-			if call, ok := ast.Unparen(f.Expr).(*ast.CallExpr); ok && !f.Val && core.CalleeFunc(x.info, call) == filterDB.Obj && len(call.Args) == 1 && core.ObjOf(x.info, c07.Strip(x.info, call.Args[0])) == k {
-				okAtom = true
-			}
-			if be, ok := ast.Unparen(f.Expr).(*ast.BinaryExpr); ok && f.Val && be.Op == token.GTR && core.ObjOf(x.info, be.X) == v {
-				if z, isC := core.IntConst(x.info, be.Y); isC && z == 0 {
-					okAtom = true
+		// a comparison of the key count with a constant: a count is 0 or positive, so the comparison is an atom
+		// "number > 0" (or its negation) iff it has one truth value at 0 and the other one at every positive value
+		var num ast.Expr
+		ast.Inspect(e, func(n ast.Node) bool {
+			if y, isE := n.(ast.Expr); isE && num == nil && c07.Obj(x.info, c07.Strip(x.info, y)) == v {
+				if _, isID := ast.Unparen(y).(*ast.Ident); isID {
+					num = y
 				}
 			}
-			if !okAtom {
-				return false
+			return num == nil
+		})
+		cmpv, okc := lin.CmpOf(x.info, e, true)
+		if num == nil || !okc || len(cmpv.F.Coef) != 1 {
+			return 0, false, false
+		}
+		co := cmpv.F.Coef[lin.Key(x.info, num)]
+		if co == 0 {
+			return 0, false, false
+		}
+		at := func(n int64) bool {
+			t := co*n + cmpv.F.Const
+			switch cmpv.Op {
+			case token.EQL:
+				return t == 0
+			case token.NEQ:
+				return t != 0
+			case token.LSS:
+				return t < 0
+			}
+			return t <= 0
+		}
+		if at(1) != at(1<<40) || at(1) != at(2) || at(0) == at(1) {
+			return 0, false, false
+		}
+		return 0, !at(1), true
+	}
+	var eval func(e ast.Expr, p, q bool) (bool, bool)
+	eval = func(e ast.Expr, p, q bool) (bool, bool) {
+		e = ast.Unparen(e)
+		switch t := e.(type) {
+		case *ast.UnaryExpr:
+			if t.Op == token.NOT {
+				r, ok := eval(t.X, p, q)
+				return !r, ok
+			}
+		case *ast.BinaryExpr:
+			if t.Op == token.LAND || t.Op == token.LOR {
+				a, ok1 := eval(t.X, p, q)
+				bb, ok2 := eval(t.Y, p, q)
+				if t.Op == token.LAND {
+					return a && bb, ok1 && ok2
+				}
+				return a || bb, ok1 && ok2
+			}
+		}
+		if i, neg, ok := atom(e); ok {
+			val := p
+			if i == 1 {
+				val = q
+			}
+			return val != neg, true
+		}
+		return false, false
+	}
+	skipOK := func(b *cfg.Block, s int) bool {
+		cond := cfgq.CondOf(b)
+		if cond == nil || len(b.Succs) != 2 {
+			return false
+		}
+		want := s == 0
+		for _, p := range []bool{true, false} {
+			for _, q := range []bool{true, false} {
+				r, ok := eval(cond, p, q)
+				if !ok {
+					return false
+				}
+				if r == want && p && !q { // the edge can be taken for a non-empty, unfiltered database
+					return false
+				}
 			}
 		}
 		return true
@@ -382,12 +453,12 @@ func (x *rx) errors() {
 	scanF := x.scannerMethod("ScanKey")
 	redigo := func(method string) func(*ast.CallExpr) bool {
 		return func(call *ast.CallExpr) bool {
-			f := core.CalleeFunc(x.info, call)
+			f := c07.CalleeF(x.info, call)
 			return f != nil && f.Name() == method && f.Pkg() != nil && strings.HasSuffix(f.Pkg().Path(), "redigo/redis") && f.Type().(*types.Signature).Recv() != nil
 		}
 	}
 	callee := func(f *types.Func) func(*ast.CallExpr) bool {
-		return func(call *ast.CallExpr) bool { return core.CalleeFunc(x.info, call) == f }
+		return func(call *ast.CallExpr) bool { return c07.CalleeF(x.info, call) == f }
 	}
 	sites := []site{
 		{"doFetch", callee(scanF), "ScanKey", true}, {"doFetch", redigo("Do"), "Do", true},
@@ -432,10 +503,10 @@ func (x *rx) errors() {
 		g := cfgq.Of(x.c.Program, sk)
 		for _, call := range core.Calls(sk.Decl.Body, info, func(call *ast.CallExpr, _ types.Object) bool {
 			_, cm, _ := cmd(info, call)
-			f := core.CalleeFunc(info, call)
+			f := c07.CalleeF(info, call)
 			return cm == "SCAN" || f != nil && f.Name() == "Scan" && strings.HasSuffix(f.Pkg().Path(), "redigo/redis")
 		}) {
-			c07.ErrCheck(x.c, g, info, sk.Decl.Body, call, c07.ErrSpec{Rule: "R6.error", Key: "NormalScanner.ScanKey/" + core.CalleeFunc(info, call).Name(), RetOK: true,
+			c07.ErrCheck(x.c, g, info, sk.Decl.Body, call, c07.ErrSpec{Rule: "R6.error", Key: "NormalScanner.ScanKey/" + c07.CalleeF(info, call).Name(), RetOK: true,
 				Consequence: "a failed SCAN is taken for an empty last page: the rest of the keyspace is silently not copied"})
 		}
 	}
@@ -456,7 +527,7 @@ func isRewrite(info *types.Info, e ast.Expr, eq bool) bool {
 }
 
 // selectRules: uses (restore sends) are reached only after a select or an equality with the tracker; every select records; the tracker starts at 0 outside the loop.
-func (x *rx) selectRules(where string, g *cfgq.Graph, start cfgq.Point, head *cfg.Block, tracker types.Object, isTr, isDB func(ast.Expr) bool, isSelect func(ast.Node) bool, uses []cfgq.Point, loop *ast.RangeStmt) {
+func (x *rx) selectRules(where string, g *cfgq.Graph, start cfgq.Point, head *cfg.Block, tracker types.Object, isTr, isDB func(ast.Expr) bool, isSelect func(ast.Node) bool, uses []cfgq.Point, loop *ast.BlockStmt) {
 	isAssign := func(n ast.Node) bool {
 		as, ok := n.(*ast.AssignStmt)
 		return ok && len(as.Lhs) == 1 && len(as.Rhs) == 1 && isTr(as.Lhs[0]) && isDB(as.Rhs[0])
@@ -498,7 +569,7 @@ func (x *rx) selectRules(where string, g *cfgq.Graph, start cfgq.Point, head *cf
 	}
 	if loop != nil {
 		v, isC := initOf(x.info, x.fn[where].Decl.Body, tracker)
-		outside := !(loop.Body.Pos() <= tracker.Pos() && tracker.Pos() < loop.Body.End())
+		outside := !(loop.Pos() <= tracker.Pos() && tracker.Pos() < loop.End())
 		x.c.Check("R3.select", where+"/tracker-init", tracker.Pos(), isC && v == 0 && outside, "the tracker must start at 0 (database of a fresh connection) and live across iterations")
 	}
 }
